@@ -11,7 +11,7 @@ RULE = ("quick: every RGB colour on a 17^3 grid + all channel-edge combinations 
 ASSUMPTIONS = ["STANDARD_PALETTE / WINDOWS_PALETTE contents are data (the 16 target entries); the 8-bit "
                "palette is cross-checked against docs/source/appendix/colors.rst and the xterm definition",
                "the metric is Rich's weighted-RGB 'redmean' formula, re-coded independently"]
-REQUIRED = ["mon.rendered_conversion", "mon.constructor_route", "mon.downgrade", "mon.idempotent", "mon.argmin", "mon.ansi_codes", "mon.grey", "mon.palette_row"]
+REQUIRED = ["mon.rendered_conversion", "mon.rendered_default_over_colour", "mon.constructor_route", "mon.downgrade", "mon.idempotent", "mon.argmin", "mon.ansi_codes", "mon.grey", "mon.palette_row"]
 MIN_NONTRIVIAL = {"quick": 5000, "thorough": 1000000}
 EXHAUSTIVE = {"quick": False, "thorough": True}
 
@@ -129,6 +129,20 @@ def check_color(ctx, color, api, pal, nontrivial_sig=None):
             ctx.violation("rendered-sgr-differs-from-converted-colour:%s" % system.name,
                           {"color": repr(color), "system": system.name, "rendered": out, "want": want,
                            "converted": repr(down)})
+        # "the default colour stays default", as rendering sees it: the style just rendered, combined with a style that
+        # only resets the background (the foreground) to the default, writes the converted colour next to 49 (39)
+        base = Style(color=color, bgcolor=color)
+        base.render("x", color_system=system)
+        fgp = palette_ref.sgr_params(k, down.number, tuple(down.triplet) if down.triplet else None, True)
+        bgp = palette_ref.sgr_params(k, down.number, tuple(down.triplet) if down.triplet else None, False)
+        for which, derived, want2 in (("bgcolor", base + Style(bgcolor="default"), fgp + ("49",)),
+                                      ("color", base + Style(color="default"), ("39",) + bgp)):
+            out = derived.render("x", color_system=system)
+            ctx.count("mon.rendered_default_over_colour")
+            got = tuple(out[2:out.index("m")].split(";")) if out.startswith("\x1b[") else ()
+            if got != tuple(str(x) for x in want2):
+                ctx.violation("default-%s-over-a-rendered-colour-does-not-render-as-default:%s" % (which, system.name),
+                              {"color": repr(color), "system": system.name, "rendered": out, "want": want2})
     # --- SGR parameters of the colour itself and of each conversion
     for fg in (True, False):
         for c in (color, color.downgrade(ColorSystem.STANDARD), color.downgrade(ColorSystem.EIGHT_BIT),
